@@ -23,7 +23,7 @@ CLAIMED = {
   text="Seeded search over interleavings (at synchronisation granularity) of generated small client programs on the real, AST-instrumented queue; every run is checked for panics, data races (vector clocks over the mediated operations), linearizability against a nondeterministic FIFO model (porcupine), conservation, back-pressure and interval-consistent observers. Sampling, not enumeration: a clean batch is evidence, not proof.",
   note="Trusts the instrumenter's rewrite rules, the simrt enabledness/happens-before model of Go mutexes and buffered channels, and porcupine. Preemption only at synchronisation operations and call boundaries."),
 "C05": dict(ref="§3.2", technique="deterministic simulation: seeded schedule search with quiescence/deadlock detection; exhaustive constructor matrix",
-  text="Liveness as bounded progress: under the baton scheduler a run ends when no task is enabled, so a lost wake-up is a deadlock the simulator sees directly, with each parked call compared against the queue's own frozen state. Well-formed pipelines must terminate; open programs may block only when justified. The constructor matrix (7 forms x N=0..64) is enumerated completely in every tier.",
+  text="Liveness as bounded progress: under the baton scheduler a run ends when no task is enabled, so a lost wake-up is a deadlock the simulator sees directly, with each parked call compared against the queue's own frozen state. Well-formed pipelines must terminate; open programs may block only when justified. The constructor matrix (11 forms x N=0..64) is enumerated completely in every tier.",
   note="Same trusted base as C04. 'Forever' means: no task enabled and no further operations will be issued."),
 "C06": dict(ref="§3.3", technique="deterministic simulation: seeded schedule search over an enumerated configuration matrix with adopted helper goroutines",
   text="The library's Fork/Split/Join helper goroutines are adopted as simulator tasks through the rewritten go statements; feeder, readers and main are harness tasks. The small configuration matrix of the property is enumerated completely and each configuration is run under many seeded schedules (plus sampled large configurations); outputs, closure propagation, termination, wait-group balance, panics and data races are checked per run.",
